@@ -128,14 +128,6 @@ Definition range_class (k : c10case) : N :=
   else if k_hello k && negb (s_m s1 =? 0) then 4
   else 0.
 
-Definition values_shallow_ok (c : cfg) (s2 : snap) (r : applied) : bool :=
-  match r with
-  | Some (t', q', m', _) =>
-    list_bool_eqb (parities t') (parities (mirror c s2))
-    && (q' =? s_q s2) && (m' =? s_m s2)
-  | None => false
-  end.
-
 Definition violations (k : c10case) : list N :=
   let c := k_cfg k in
   if faithful k then
